@@ -24,3 +24,4 @@ ASSUMPTIONS = ['ghost flavor: read_lock/unlock counters per thread, synchronize_
                'typed static pools behind a custom cds_lfht_alloc; get_possible_cpus_array_len() = 1']
 LEVEL_TEXT = 'Bounded model checking of the real rculfhash.c add/del/lookup/traversal code for all interleavings within R rounds of 3 threads and all 64-bit hash values.'
 LEVEL_NOTE = 'Trusted: clang-14 lowering, irseq translator, asm table, ghost flavor, pool allocator, CBMC/MiniSat.'
+NA_REASON = 'check built but not yet validated on the unchanged tree within the time/memory caps; not claimed'
